@@ -8,9 +8,9 @@ import (
 	"fmt"
 	"go/constant"
 	"go/token"
+	"go/types"
 	"sort"
 	"strings"
-	"unicode"
 
 	"golang.org/x/tools/go/ssa"
 )
@@ -108,101 +108,74 @@ type readOutcome struct {
 
 // evalCond evaluates a boolean SSA value for read result v == c: 1 true, 0 false, -1 unknown.
 func evalCond(cond ssa.Value, v ssa.Value, c int) int {
-	isV := func(x ssa.Value) bool {
-		for i := 0; i < 3; i++ {
-			if x == v {
-				return true
-			}
-			switch y := x.(type) {
-			case *ssa.Convert:
-				x = y.X
-			case *ssa.ChangeType:
-				x = y.X
-			default:
-				return false
-			}
-		}
-		return x == v
+	r, ok := foldValue(cond, v, c, 0)
+	if !ok || !r.isBool {
+		return -1
 	}
-	switch x := cond.(type) {
+	if r.b {
+		return 1
+	}
+	return 0
+}
+
+// foldValue folds an expression over the read result v (taken to be c), constants, conversions, arithmetic,
+// comparisons and pure calls (purefn.go). Anything else is unknown.
+func foldValue(e ssa.Value, v ssa.Value, c int, depth int) (pval, bool) {
+	if e == v {
+		return pval{i: int64(c)}, true
+	}
+	if depth > 8 {
+		return pval{}, false
+	}
+	switch x := e.(type) {
 	case *ssa.Const:
-		if x.Value != nil && x.Value.Kind() == constant.Bool {
-			if constant.BoolVal(x.Value) {
-				return 1
-			}
-			return 0
+		if x.Value == nil {
+			return pval{}, false
 		}
+		switch x.Value.Kind() {
+		case constant.Bool:
+			return pval{isBool: true, b: constant.BoolVal(x.Value)}, true
+		case constant.Int:
+			n, ok := constant.Int64Val(x.Value)
+			return pval{i: n}, ok
+		}
+	case *ssa.Convert:
+		in, ok := foldValue(x.X, v, c, depth+1)
+		if !ok || in.isBool {
+			return pval{}, false
+		}
+		if b, isB := x.Type().Underlying().(*types.Basic); !isB || b.Info()&types.IsInteger == 0 {
+			return pval{}, false
+		}
+		return pval{i: truncInt(in.i, x.Type())}, true
+	case *ssa.ChangeType:
+		return foldValue(x.X, v, c, depth+1)
 	case *ssa.UnOp:
 		if x.Op == token.NOT {
-			switch evalCond(x.X, v, c) {
-			case 1:
-				return 0
-			case 0:
-				return 1
+			in, ok := foldValue(x.X, v, c, depth+1)
+			if ok && in.isBool {
+				return pval{isBool: true, b: !in.b}, true
 			}
 		}
 	case *ssa.BinOp:
-		var k int
-		var ok, swapped bool
-		if isV(x.X) {
-			k, ok = constInt(x.Y)
-		} else if isV(x.Y) {
-			k, ok = constInt(x.X)
-			swapped = true
+		a, ok1 := foldValue(x.X, v, c, depth+1)
+		b, ok2 := foldValue(x.Y, v, c, depth+1)
+		if ok1 && ok2 {
+			return foldBinOp(x.Op, a, b, x.X.Type())
 		}
-		if !ok {
-			return -1
-		}
-		a, b := c, k
-		if swapped {
-			a, b = k, c
-		}
-		var r bool
-		switch x.Op {
-		case token.EQL:
-			r = a == b
-		case token.NEQ:
-			r = a != b
-		case token.LSS:
-			r = a < b
-		case token.LEQ:
-			r = a <= b
-		case token.GTR:
-			r = a > b
-		case token.GEQ:
-			r = a >= b
-		default:
-			return -1
-		}
-		if r {
-			return 1
-		}
-		return 0
 	case *ssa.Call:
-		// pure library predicates on the byte, evaluated here (static evaluation of a library function, not of repo code)
-		if len(x.Call.Args) == 1 && isV(x.Call.Args[0]) {
-			var f func(rune) bool
-			switch calleeName(&x.Call) {
-			case "unicode.IsSpace":
-				f = unicode.IsSpace
-			case "unicode.IsLetter":
-				f = unicode.IsLetter
-			case "unicode.IsDigit":
-				f = unicode.IsDigit
-			case "unicode.IsUpper":
-				f = unicode.IsUpper
-			case "unicode.IsLower":
-				f = unicode.IsLower
-			}
-			if f != nil {
-				if f(rune(c)) {
-					return 1
-				}
-				return 0
+		var av []pval
+		for _, a := range x.Call.Args {
+			if pv, ok := foldValue(a, v, c, depth+1); ok {
+				av = append(av, pv)
 			}
 		}
+		if len(av) != len(x.Call.Args) {
+			av = nil
+		}
+		return pureCall(&x.Call, av, func(a ssa.Value) (pval, bool) { return foldValue(a, v, c, depth+1) }, 0)
 	}
-	return -1
+	return pval{}, false
 }
 
 // analyseRead evaluates the continuation of read site n for every byte value.
